@@ -12,6 +12,8 @@ def get(name):
         from .hist import h_hist as fn
     elif name == "hist_pair":
         from .hist import h_hist_pair as fn
+    elif name == "hist_long":
+        from .hist import h_hist_long as fn
     else:
         from . import lemmas
         fn = getattr(lemmas, "h_" + name)
